@@ -271,6 +271,12 @@ FAMILIES = {
     # collection declared second; states reach the flush in a LATER presort round (orphans, cascades)
     "orphan-tree+m2o": ([-1, -1], [_fk(0, 1, o2m=0, m2ocasc=1), _fk(0, 0, m2o=0, orphan=1)]),
     "orphan-o2m+m2o": ([-1, -1, -1], [_fk(1, 2, o2m=0, m2ocasc=1), _fk(1, 0, orphan=1)]),
+    # two mappers that depend on each other through two one-to-many relationships without many-to-one sides
+    # (per-state regime; the only edge that orders "UPDATE child SET fk=NULL" before "DELETE parent" is the
+    # (child_action, delete_parent) edge of _OneToManyDP.per_state_dependencies)
+    "mutual-o2m": ([-1, -1], [_fk(0, 1, m2o=0), _fk(1, 0, m2o=0)]),
+    # adjacency list + one-way self-referential many-to-many (per-state many-to-many dependencies)
+    "tree+m2m-self-oneway": ([-1], [_fk(0, 0), _mm(0, 0, bwd=0)]),
 }
 # families all of whose cases are expected to satisfy the hypotheses of the guarded theorem
 IN_GUARD = {"o2m", "chain3", "tree", "tree-cascade", "m2m", "m2m-self", "m2m+tree", "mutual-backref", "parent-of-tree", "child-of-tree"}
@@ -399,6 +405,18 @@ EXTRA = {
     "orphan-o2m+m2o": [
         [[0, 0], [0, 1], [0, 2], [1, 0, 1, 2], [2, 1, 0, 1], [8], [9], [3, 1, 0, 1]],
         [[0, 0], [0, 1], [0, 2], [1, 0, 1, 2], [2, 1, 0, 1], [8], [9], [6, 0]],
+    ],
+    # a department with two employees is deleted, the employees stay
+    "mutual-o2m": [
+        [[0, 0], [0, 1], [0, 1], [1, 1, 1, 0], [1, 1, 2, 0], [8], [6, 0]],
+        [[0, 0], [0, 1], [0, 1], [1, 1, 1, 0], [1, 0, 0, 2], [8], [6, 0]],
+        [[0, 0], [0, 1], [0, 1], [1, 1, 1, 0], [1, 1, 2, 0], [8], [9], [6, 0]],
+    ],
+    # a node is unlinked and deleted while a new node is added to the tree and linked in the same flush
+    "tree+m2m-self-oneway": [
+        [[0, 0], [0, 0], [0, 0], [4, 1, 0, 1], [8], [5, 1, 0, 1], [6, 1], [0, 0], [1, 0, 3, 0], [4, 1, 3, 0]],
+        [[0, 0], [0, 0], [0, 0], [4, 1, 0, 1], [4, 1, 2, 1], [8], [5, 1, 0, 1], [5, 1, 2, 1], [6, 1], [0, 0], [1, 0, 3, 0], [4, 1, 3, 2]],
+        [[0, 0], [0, 0], [0, 0], [4, 1, 0, 1], [8], [6, 1], [0, 0], [1, 0, 3, 0], [4, 1, 3, 0]],
     ],
 }
 
@@ -937,7 +955,11 @@ def impl(c):
                         continue
                     if s not in ctx.states and o not in session:
                         continue
-                    sm = s.manager[key].impl.get_all_pending(s, s.dict, attributes.PASSIVE_NO_INITIALIZE)
+                    # as per_state_flush_actions reads it: with the processor's delete flag for a state that is
+                    # being deleted (a PENDING object marked deleted by a cascade has the member (None, None))
+                    isdel_ = s in ctx.states and ctx.states[s][0]
+                    sm = s.manager[key].impl.get_all_pending(
+                        s, s.dict, dp._passive_delete_flag if isdel_ else attributes.PASSIVE_NO_INITIALIZE)
                     for cs, co in sm:
                         if cs is None:
                             links.append([j, jj, None])
@@ -1251,7 +1273,12 @@ LEVEL_NOTE = (
     "changes (_DetectKeySwitch, listonly states), passive_deletes, delete-orphan presort, the table order "
     "inside one joined-inheritance object (checked by the SQLite oracle only), deferred constraints, "
     "PostgreSQL/MariaDB (the reference database is validated against SQLite only), CircularDependencyError "
-    "on acyclic rows (found: stale-link finding). Trusted: Coq kernel; the transcription (pin + exact "
+    "on acyclic rows (found: stale-link finding). The direct oracle ('consistent state => no failure') makes no claim "
+    "for scripts that leave its assumptions: a member of a collection outside the session at an intermediate flush, "
+    "collections of objects that are not in the session (expunged, or deleted by an earlier commit with "
+    "expire_on_commit=False), a cancelled delete, rows of objects detached by an expunge cascade, a pending object "
+    "carrying a foreign key value no relationship accounts for; post_update columns carried early by an INSERT / "
+    "regular UPDATE and the pre-delete UPDATE of a deleted row are tolerated in the static content comparison. Trusted: Coq kernel; the transcription (pin + exact "
     "action/dependency-set correspondence); the AST table extractor. No axioms."
 )
 TECHNIQUE = (
